@@ -252,7 +252,21 @@ CHECKS['C10'] = {
     'technique': 'canonical-form comparison of update statements extracted from MIR + CFG exit/guard analysis + call-graph deny-list',
 }
 
+CHECKS['C09'] = {
+    'category': 'other',
+    'text': 'Only the structural clauses of the property are decided; every accuracy figure (1e-13 / 1e-12 / 1e-10 / 1.5e-7) is a numerical statement '
+            'about approximations over a continuum of arguments and is NOT decided. Decided on MIR terms: erf returns -erf(-x) for x < 0 (odd bit for '
+            'bit); its closed form on x >= 0 stays inside [-1, 1] by interval branch-and-bound over [0, inf) (so |erf| <= 1); beta(a,b) is '
+            'gamma(a)*gamma(b)/gamma(a+b) (three evaluations with these arguments; exactly symmetric because IEEE * and + commute); below its threshold '
+            'digamma(x) = digamma(x+1) - 1/x (the recurrence holds by construction there) and its asymptotic branch is ln x - 1/(2x) - sum B_2k/(2k x^2k) '
+            'with the exact Bernoulli numbers for consecutive k; gamma and ln_gamma reflect through pi/(sin(pi z) gamma(1-z)); the Lanczos main branch is '
+            'sqrt(2pi) t^(z-1/2) e^-t A(z) and ln_gamma is the logarithm of the same form with the same t (log-linear normal form), the series divides '
+            'coefficient k by z-1+k.',
+    'design_ref': 'DESIGN.md 4.9 (as revised), 9.8',
+    'note': 'A change of a Lanczos / Abramowitz-Stegun coefficient, of g, of the number of terms or of the recurrence threshold is invisible to these '
+            'rules: they are necessary conditions of the stated identities, not the accuracy claim.',
+    'technique': 'term-shape rules on MIR closed forms + interval branch-and-bound abstract interpretation + exact rational table (Bernoulli numbers) + log-linear normal form comparison of sibling functions',
+}
+
 NOT_APPLICABLE = {
-    'C09': 'accuracy of the Lanczos/asymptotic/Abramowitz-Stegun approximations over a continuum of arguments is a numerical '
-           'quantity; no structural clause is a necessary condition without freezing coefficient tables (a brittle proxy); see DESIGN.md 4.9',
 }
